@@ -154,6 +154,12 @@ func flattenHTML(evs []hEvent) *hFlat {
 			if e.Name == "pre" || e.Name == "textarea" {
 				preDepth--
 			}
+			if e.Name == "option" {
+				// white space at the end of an option's text is stripped from its label and value, exactly like the
+				// inter-element white space of the select around it: with KeepWhitespace the minifier keeps such a
+				// space when a comment follows, and since </option> is dropped it then sits at the option's tail
+				gapWS = false
+			}
 			if e.Name == "script" || e.Name == "style" {
 				rawIdx = -1
 			}
@@ -420,7 +426,7 @@ func compareHTML(in, out string, c c03Opts, m *minify.M) string {
 		var want []string
 		if c.o.KeepSpecialComments {
 			for _, cm := range fi.comments {
-				if strings.HasPrefix(cm, "#") {
+				if c03SpecialComment(cm) {
 					want = append(want, cm)
 				}
 			}
@@ -431,7 +437,7 @@ func compareHTML(in, out string, c c03Opts, m *minify.M) string {
 		if c.o.KeepSpecialComments {
 			var wantCtx []string
 			for k, cm := range fi.comments {
-				if strings.HasPrefix(cm, "#") {
+				if c03SpecialComment(cm) {
 					wantCtx = append(wantCtx, fi.commentCtx[k])
 				}
 			}
@@ -629,6 +635,61 @@ func c03CommentMoved(opt, from, to string) string {
 	return msg
 }
 
+// c03SpecialComment: the comments KeepSpecialComments documents as kept — SSI (`<!--#…-->`) and conditional comments
+// (`<!--[if …]>…<![endif]-->`, whose inner markup is minified as HTML: the matrix below only uses inner text that
+// is already minimal, so the comment text itself must come back unchanged).
+func c03SpecialComment(cm string) bool {
+	if len(cm) > 1 && cm[0] == '#' {
+		return true
+	}
+	return len(cm) > 6 && (strings.HasPrefix(cm, "[if ") || strings.HasSuffix(cm, "[endif]"))
+}
+
+// c03LookaheadDocs: a fixed matrix aimed at the look-ahead that decides whether an optional end tag may be dropped.
+// Every element with an optional end tag, written with its end tag, followed by nothing / white space / an ordinary
+// comment / an SSI comment / a conditional comment (and combinations), followed in turn by each kind of token that
+// does or does not imply the end tag.  Random documents almost never put a *kept* comment exactly there.
+func c03LookaheadDocs() []string {
+	fillers := []string{"", " ", "<!--c-->", " <!--c--> ", "<!--[if IE]>x<![endif]-->", " <!--[if IE]>x<![endif]--> ",
+		"<!--#include virtual=\"x\" -->", "\n<!--#echo var=\"a\" -->\n", "<!--c--><!--#echo var=\"a\" -->", "<!--[if IE]>x<![endif]--><!--c-->"}
+	type ctx struct {
+		pre, item string
+		nexts     []string
+		post      string
+	}
+	ctxs := []ctx{
+		{"<div>x", "<p>a</p>", []string{"<div>b</div>", "<p>b</p>", "<ul><li>b</li></ul>", "<span>b</span>", "b", "<table><tr><td>b</td></tr></table>", "<h2>b</h2>", "<pre>b</pre>", ""}, "</div>y"},
+		{"<section>", "<p>a</p>", []string{"<address>b</address>", "<hr>", "<form>b</form>", ""}, "</section>"},
+		{"<a href=u>", "<p>a</p>", []string{"<div>b</div>", ""}, "</a>y"},
+		{"<ins>", "<p>a</p>", []string{"<p>b</p>", ""}, "</ins>y"},
+		{"", "<p>a</p>", []string{"<div>b</div>", "<p>b</p>", "b", ""}, ""},
+		{"<ul>", "<li>a</li>", []string{"<li>b</li>", ""}, "</ul>"},
+		{"<ol><li>x", "<li>a</li>", []string{"<li>b</li>", ""}, "</ol>z"},
+		{"<dl>", "<dt>a</dt>", []string{"<dd>b</dd>", "<dt>b</dt>"}, "</dl>"},
+		{"<dl><dt>t</dt>", "<dd>a</dd>", []string{"<dt>b</dt><dd>c</dd>", "<dd>b</dd>", ""}, "</dl>"},
+		{"<select>", "<option>a</option>", []string{"<option>b</option>", "<optgroup label=g><option>b</option></optgroup>", ""}, "</select>"},
+		{"<select>", "<optgroup label=g><option>a</option></optgroup>", []string{"<optgroup label=h><option>b</option></optgroup>", "<option>b</option>", ""}, "</select>"},
+		{"<ruby>r", "<rt>a</rt>", []string{"<rp>b</rp>", "<rt>b</rt>", ""}, "</ruby>"},
+		{"<ruby>r", "<rp>a</rp>", []string{"<rt>b</rt>", ""}, "</ruby>"},
+		{"<table>", "<caption>a</caption>", []string{"<tr><td>b</td></tr>", "<tbody><tr><td>b</td></tr></tbody>"}, "</table>"},
+		{"<table>", "<colgroup><col></colgroup>", []string{"<tr><td>b</td></tr>", "<thead><tr><th>b</th></tr></thead>"}, "</table>"},
+		{"<table>", "<thead><tr><th>a</th></tr></thead>", []string{"<tbody><tr><td>b</td></tr></tbody>", "<tfoot><tr><td>b</td></tr></tfoot>"}, "</table>"},
+		{"<table>", "<tbody><tr><td>a</td></tr></tbody>", []string{"<tbody><tr><td>b</td></tr></tbody>", "<tfoot><tr><td>b</td></tr></tfoot>", ""}, "</table>"},
+		{"<table><tbody>", "<tr><td>a</td></tr>", []string{"<tr><td>b</td></tr>", ""}, "</tbody></table>"},
+		{"<table><tr>", "<td>a</td>", []string{"<td>b</td>", "<th>b</th>", ""}, "</tr></table>"},
+		{"<table><tr>", "<th>a</th>", []string{"<td>b</td>", ""}, "</tr></table>"},
+	}
+	var docs []string
+	for _, c := range ctxs {
+		for _, nx := range c.nexts {
+			for _, f := range fillers {
+				docs = append(docs, c.pre+c.item+f+nx+c.post)
+			}
+		}
+	}
+	return docs
+}
+
 func firstDiffWords(a, b []hWordGap) string {
 	i := 0
 	for i < len(a) && i < len(b) && a[i].word == b[i].word {
@@ -678,14 +739,7 @@ func C03(run *core.Run) {
 		bad := v != "" && v != "INCONCLUSIVE" && !strings.HasPrefix(v, "REJECTED")
 		return bad, v
 	})
-	n := run.N(8000, 400000)
-	core.ParallelFor(n, 0, func(i int) {
-		r := run.CaseRand("doc", i, n*3/5)
-		c := c03Configs(r, i)
-		doc := genHTMLDoc(r, c.withSubs)
-		if i < 3 {
-			run.Sample(map[string]string{"config": c.String(), "input": core.Trunc(doc, 1200)})
-		}
+	judge := func(c c03Opts, doc string) {
 		run.Eval()
 		v, out := c03Judge(doc, c)
 		cfg := c.String()
@@ -706,8 +760,31 @@ func C03(run *core.Run) {
 			}
 			run.Violation(key, fmt.Sprintf("%s: %s | in=%s | out=%s", cfg, v, core.Trunc(doc, 400), core.Trunc(out, 400)), map[string]interface{}{"config": cfg, "input": doc, "output": out})
 		}
+	}
+	// fixed matrix: end-tag look-ahead x filler (white space, comment kinds) x follower x the options that matter there
+	la := c03LookaheadDocs()
+	core.ParallelFor(len(la)*32, 0, func(k int) {
+		bits := k % 32
+		var o mhtml.Minifier
+		o.KeepComments = bits&1 != 0
+		o.KeepSpecialComments = bits&2 != 0
+		o.KeepEndTags = bits&4 != 0
+		o.KeepWhitespace = bits&8 != 0
+		o.KeepDocumentTags = bits&16 != 0
+		run.Count("lookahead_matrix_cases")
+		judge(c03Opts{o: o}, la[k/32])
 	})
-	run.Finish("seeded conforming HTML documents and fragments from a content-model driven generator (optional start/end tags written or omitted per the HTML Standard, every optional-tag element, attribute values over the hostile alphabet with both quote kinds / unquoted / character references, text with named and numeric references, whitespace of every kind around inline, object-like and block elements, pre/textarea, script/style/template payloads, comments incl. SSI), under random Keep* option combinations (default options on a third of the cases), with and without sub-minifiers registered; a case is (options, document); non-trivial = the minifier changed the document",
+	n := run.N(8000, 400000)
+	core.ParallelFor(n, 0, func(i int) {
+		r := run.CaseRand("doc", i, n*3/5)
+		c := c03Configs(r, i)
+		doc := genHTMLDoc(r, c.withSubs)
+		if i < 3 {
+			run.Sample(map[string]string{"config": c.String(), "input": core.Trunc(doc, 1200)})
+		}
+		judge(c, doc)
+	})
+	run.Finish("seeded conforming HTML documents and fragments from a content-model driven generator (optional start/end tags written or omitted per the HTML Standard, every optional-tag element, attribute values over the hostile alphabet with both quote kinds / unquoted / character references, text with named and numeric references, whitespace of every kind around inline, object-like and block elements, pre/textarea, script/style/template payloads, comments incl. SSI), plus a fixed look-ahead matrix (every optional-end-tag element written with its end tag x white space / ordinary / SSI / conditional comment fillers x followers that do or do not imply the end tag x 32 option combinations), under random Keep* option combinations (default options on a third of the cases), with and without sub-minifiers registered; a case is (options, document); non-trivial = the minifier changed the document",
 		[]string{"golang.org/x/net/html (HTML5 tree builder) parses both texts", "relation R: identical element structure (empty attribute-less script/style may vanish), attributes equal by kind (boolean: presence; token lists; URLs trimmed; enumerated/number attributes trimmed; documented default/empty attributes may be dropped; meta rewrites), identical word sequence per element context with the gap rule for whitespace (never invented; removed only next to a break boundary), comments per option, payload slots equal to what the registered minifier returns",
 			"break-boundary list, boolean attribute list and attribute kinds are my transcription of the HTML Standard"}, 1000, false)
 }
